@@ -408,4 +408,12 @@ MUTANTS = [
     M("D1-2-find-bound", ["C02"], (FE, ".find(|&ri| self.current_player_indexes[ri] + 1 < self.player_entries[ri].len());", ".find(|&ri| self.current_player_indexes[ri] + 2 < self.player_entries[ri].len());"), base="D1-2"),
     M("D2-2-filter-ne", ["C01"], (MH, "        .filter(|card| card.suit() == suit)", "        .filter(|card| card.suit() != suit)"), base="D2-2"),
     M("D2-2-skip-first", ["C01"], (MH, "    cards\n        .iter()\n        .filter(", "    cards\n        .iter()\n        .skip(1)\n        .filter("), base="D2-2"),
+    M("benign-B1-3-cached-flag-zip", ["C02", "C04", "C08", "C11"], base="B1-3", benign=True),
+    M("benign-D1-4-cached-flag", ["C02", "C08"], base="D1-4", benign=True),
+    M("B1-3-insert-same", ["C02"], (FE, "            self.current_used_cards.insert(card_pair[1]);", "            self.current_used_cards.insert(card_pair[0]);"), base="B1-3"),
+    M("B1-3-no-weight", ["C02"], (FE, "            probability *= weight;", ""), base="B1-3"),
+    M("B1-3-zip-skip", ["C02"], (FE, "            .zip(self.current_player_indexes.iter())", "            .zip(self.current_player_indexes.iter().skip(1))"), base="B1-3"),
+    M("B1-3-flag-skip", ["C08"], (FE, "let any_player_without_entries = player_entries.iter().any(|entries| entries.is_empty());", "let any_player_without_entries = player_entries.iter().skip(1).any(|entries| entries.is_empty());"), base="B1-3"),
+    M("B1-3-flag-all", ["C08"], (FE, "let any_player_without_entries = player_entries.iter().any(|entries| entries.is_empty());", "let any_player_without_entries = player_entries.iter().all(|entries| entries.is_empty());"), base="B1-3"),
+    M("D1-4-flag-const", ["C08"], (FE, "            has_empty_player,", "            has_empty_player: false,"), base="D1-4"),
 ]
